@@ -8,7 +8,7 @@ From Coq Require Import List String ZArith NArith Bool.
 Import ListNotations.
 Require Import Verif.Model.C09_Types Verif.Gen.C09_Matcher Verif.Model.C09
                Verif.Model.C08_Types Verif.Gen.C08_Tables Verif.Model.C08
-               Verif.Proofs.C08 Verif.Proofs.C08_Symbols.
+               Verif.Proofs.C08 Verif.Proofs.C08_Symbols Verif.Proofs.C08_RootCalls.
 
 (* Finite per-kind obligations on the regenerated tables: every kind of allTypes is in the row of its own
    pattern node; Or collects from all alternatives, Binding from its node; bare names, Nil and Not
@@ -59,3 +59,26 @@ Proof.
   exact (fun has orc af => symbols_sound_gen gen_tables gen_could_empty_path_any has gen_cfg orc af c08_sym_tables_ok).
 Qed.
 Print Assumptions symbols_sound.
+
+(* rootcalls_sound: a pattern with root call symbols matches only (wrappers of) call expressions whose Fun,
+   with its transparent wrappers removed, go/types resolves to a symbol named by one of the root call
+   symbols. Together with the index contract (Index.Calls(obj) yields every call whose callee is obj) this
+   is why enumerating Index.Calls instead of all entry nodes drops no match. *)
+Theorem rootcalls_sound :
+  forall orc af,
+    (forall rv obj o, o_ta orc "Symbol" rv = Some (obj, o) -> exists nm, o = Some (VStr nm)) ->
+    forall f p n s v sigma,
+      known_pat_b p = true -> root_call_names p <> [] ->
+      ms gen_cfg orc af f p n s = RDone true v sigma ->
+      exists rv obj nm, fun_of gen_cfg n rv /\ o_ta orc "Symbol" rv = Some (obj, Some (VStr nm)) /\
+                        In nm (root_call_names p).
+Proof. exact (rootcalls_sound_gen gen_cfg). Qed.
+Print Assumptions rootcalls_sound.
+
+(* The index contract cannot hold for predeclared functions (no package) nor for conversions (not calls):
+   code.Matches must not use the call index for them, and CouldMatchAny must not reject packages because of
+   them -- finite obligation on the transcribed shape of analysis/code/visit.go. *)
+Theorem c08_visit_guards :
+  (gen_could_empty_path_any && gen_root_guard_empty_path && gen_root_guard_type_name)%bool = true.
+Proof. exact (eq_refl true). Qed.
+Print Assumptions c08_visit_guards.
